@@ -36,7 +36,7 @@ def check(tier, seed, replay=None):
         plan = []
         for i in range(40 if quick else 2500):
             policy = rnd.choice(["ignore", "panic", "stderr", "stdout"])
-            mode = rnd.choice(["plain", "plain", "select", "sort", "merge", "group"])
+            mode = rnd.choice(["plain", "plain", "select", "sort", "merge", "group", "take", "skiptake", "sorttake", "mergetake"])
             data = RL.small_stream(rnd, rnd.choice([20, 40, 60]), noise=0.25 if policy != "panic" else 0.0)
             plan.append({"policy": policy, "mode": mode, "stdin": hexs(data)})
     # fault-free runs first (they give the write offsets)
@@ -48,7 +48,9 @@ def check(tier, seed, replay=None):
         argv = base_cases[i]["argv"]
         faults = p.get("faults")
         if faults is None:
-            faults = [("r", k) for k in range(len(data) + 1)] + [("w", k) for k in range(len(bytes.fromhex(bobs[i]["out"])) + 1)]
+            # with --take the input is not read to its end, so only write faults are injected there (C14 has the reading side)
+            faults = ([("r", k) for k in range(len(data) + 1)] if p["mode"] not in RL.LIMITED else []) + \
+                     [("w", k) for k in range(len(bytes.fromhex(bobs[i]["out"])) + 1)]
         for kind, k in faults:
             c = {"id": len(cases), "argv": argv, "stdin": p["stdin"]}
             if kind == "r":
